@@ -317,7 +317,7 @@ PROPS = {
         "check": "c09_check",
         "diag": "c09_diag",
         "mismatch_is_violation": True,
-        "theories": ["theories/Base.v", "theories/ReqHosts.v", "theories/ReqHostsProofs.v"],
+        "theories": ["theories/Base.v", "theories/ReqHosts.v", "theories/ReqHostsProofs.v", "gen/Facts.v"],
         "check_theories": ["theories/Check08.v"],
         "level_text": "Coq theorems over the registry model for every history of registrations and closes (no "
                       "registration arrives on a closed connection): a host is instructable, and on exactly which "
